@@ -315,7 +315,29 @@ class C08History:
                                (aux[1] if aux else set()))),
                     feats | {'differs:.bfg_find_deps'}, idx))
                 return
-        # quiescence: a second run regenerates nothing
+        # quiescence: a second run regenerates nothing.  The statement is
+        # about two consecutive runs of the *backend's* step: after a
+        # regeneration by hand the backend's bookkeeping (stamp file) may
+        # legitimately ask for one run of its own first
+        if kind.startswith('explicit'):
+            r1 = sim.regen_step()
+            self.trace.append(['regen1', r1.status,
+                               [i.get('outcome') for i in r1.inv]])
+            if 'livelock' in [i.get('outcome') for i in r1.inv] or \
+               not r1.ok:
+                self.violations.append(Violation(
+                    PROP, 'termination' if r1.ok or any(
+                        i.get('outcome') == 'livelock' for i in r1.inv)
+                    else 'equality',
+                    'the backend step after a regeneration by hand: status '
+                    '{}'.format(r1.status), feats | {'after_explicit'}, idx))
+                return
+            if sim.diff_files(sim.primary(), ref):
+                self.violations.append(Violation(
+                    PROP, 'equality', 'the backend step after a '
+                    'regeneration by hand changed the build files',
+                    feats | {'after_explicit'}, idx))
+                return
         before = sim.primary()
         r2 = sim.regen_step() if kind != 'build' else sim.backend_run()
         out2 = [i.get('outcome') for i in r2.inv]
